@@ -2064,3 +2064,182 @@ func (c *Ctx) blockAlternatives(b *ssa.BasicBlock) [][]Atom {
 	}
 	return out
 }
+
+// CTOR-FRESH (C03, C06): the general constructor builds the node it was asked for.
+func ruleCTORFRESH(c *Ctx, r *Report) {
+	const rule = "CTOR-FRESH"
+	r.doc(rule, "every value the general constructor expr.Expr returns is a node allocated during that call (directly, or by a module function that itself returns only fresh nodes), never one of its operands or a node taken from them; where it delegates to a constructor that takes an operator, the operator passed on is its own operator parameter or a constant. The constructor therefore cannot answer a request for NOT x with x's own subtree or with a different comparison: one node of the requested kind per call is what the production table and the SQL operator table both assume")
+	general := c.pkgFunc(pkgExpr, "Expr")
+	if general == nil {
+		r.bad(rule, "anchor", "-", "expr.Expr not found")
+		return
+	}
+	isOperator := func(t types.Type) bool {
+		n, ok := t.(*types.Named)
+		return ok && n.Obj().Name() == "Operator" && n.Obj().Pkg() != nil && n.Obj().Pkg().Path() == pkgExpr
+	}
+	memo := map[*ssa.Function]string{}
+	var freshFn func(f *ssa.Function, depth int) string
+	var fresh func(f *ssa.Function, v ssa.Value, seen map[ssa.Value]bool, depth int) string
+	fresh = func(f *ssa.Function, v ssa.Value, seen map[ssa.Value]bool, depth int) string {
+		if seen[v] {
+			return ""
+		}
+		seen[v] = true
+		switch x := v.(type) {
+		case *ssa.Const:
+			if x.IsNil() {
+				return ""
+			}
+		case *ssa.Alloc:
+			return ""
+		case *ssa.Phi:
+			for _, e := range x.Edges {
+				if s := fresh(f, e, seen, depth); s != "" {
+					return s
+				}
+			}
+			return ""
+		case *ssa.Call:
+			g := x.Call.StaticCallee()
+			if g == nil || g.Blocks == nil || fnPkgPath(g) != pkgExpr {
+				return "the result of a call that is not a module constructor"
+			}
+			for _, a := range x.Call.Args {
+				if !isOperator(a.Type()) {
+					continue
+				}
+				if _, isConst := a.(*ssa.Const); isConst {
+					continue
+				}
+				if p, isParam := a.(*ssa.Parameter); isParam && p.Parent() == f {
+					continue
+				}
+				return "the result of " + g.Name() + " called with an operator that is neither the constructor's own operator parameter nor a constant"
+			}
+			if g == f || g == general {
+				return "" // the general constructor's own returns are judged once, above
+			}
+			if depth > 4 {
+				return "a constructor chain deeper than the analysis follows"
+			}
+			// a helper that finishes the node it is handed returns its parameter: fresh when the argument is
+			for _, gb := range g.Blocks {
+				for _, gin := range gb.Instrs {
+					ret, ok := gin.(*ssa.Return)
+					if !ok {
+						continue
+					}
+					for _, res := range ret.Results {
+						if !isExprPtr(res.Type()) {
+							continue
+						}
+						if p, isParam := res.(*ssa.Parameter); isParam {
+							for i, gp := range g.Params {
+								if gp == p && i < len(x.Call.Args) {
+									if s := fresh(f, x.Call.Args[i], seen, depth); s != "" {
+										return s
+									}
+								}
+							}
+							continue
+						}
+						if s := fresh(g, res, map[ssa.Value]bool{}, depth+1); s != "" {
+							return s
+						}
+					}
+				}
+			}
+			return ""
+		}
+		return "a value that is not a node allocated during the call (an operand, or a node read from one)"
+	}
+	freshFn = func(f *ssa.Function, depth int) string {
+		if s, ok := memo[f]; ok {
+			return s
+		}
+		memo[f] = ""
+		if depth > 4 {
+			return "a constructor chain deeper than the analysis follows"
+		}
+		for _, b := range f.Blocks {
+			for _, in := range b.Instrs {
+				ret, ok := in.(*ssa.Return)
+				if !ok {
+					continue
+				}
+				for _, res := range ret.Results {
+					if !isExprPtr(res.Type()) {
+						continue
+					}
+					if s := fresh(f, res, map[ssa.Value]bool{}, depth); s != "" {
+						memo[f] = s
+						return s
+					}
+				}
+			}
+		}
+		return ""
+	}
+	_ = freshFn
+	n := 0
+	for _, b := range general.Blocks {
+		for _, in := range b.Instrs {
+			ret, ok := in.(*ssa.Return)
+			if !ok || len(ret.Results) != 1 {
+				continue
+			}
+			n++
+			if s := fresh(general, ret.Results[0], map[ssa.Value]bool{}, 0); s != "" {
+				r.bad(rule, "Expr|return", c.instrPos(in), "the general constructor returns "+s+": the caller asked for one new node of the given operator over the given operands")
+			} else {
+				r.ok(rule, fmt.Sprintf("Expr|return#%d", n), c.instrPos(in), "fresh node")
+			}
+		}
+	}
+	r.floor(rule, "returns of the general constructor", n, 1)
+	// the named constructors (NOT, MUST, Eq, ...): exported functions that hand their operands to the general one
+	var named []*ssa.Function
+	for _, f := range c.Funcs {
+		if fnPkgPath(f) != pkgExpr || f.Parent() != nil || f.Signature.Recv() != nil || f == general || f.Object() == nil || !f.Object().Exported() {
+			continue
+		}
+		if f.Signature.Results().Len() != 1 || !isExprPtr(f.Signature.Results().At(0).Type()) {
+			continue
+		}
+		calls := false
+		for _, b := range f.Blocks {
+			for _, in := range b.Instrs {
+				if call, ok := in.(*ssa.Call); ok && call.Call.StaticCallee() == general {
+					calls = true
+				}
+			}
+		}
+		if calls {
+			named = append(named, f)
+		}
+	}
+	sort.Slice(named, func(i, j int) bool { return named[i].Pos() < named[j].Pos() })
+	for _, f := range named {
+		bad := ""
+		pos := c.pos(f.Pos())
+		for _, b := range f.Blocks {
+			for _, in := range b.Instrs {
+				ret, ok := in.(*ssa.Return)
+				if !ok || len(ret.Results) != 1 {
+					continue
+				}
+				if s := fresh(f, ret.Results[0], map[ssa.Value]bool{}, 0); s != "" && bad == "" {
+					bad = s
+					pos = c.instrPos(in)
+				}
+			}
+		}
+		if bad != "" {
+			r.bad(rule, f.Name()+"|return", pos, "the constructor "+f.Name()+" returns "+bad+": a typed operator that is given no node of its own in the tree")
+		} else {
+			r.ok(rule, f.Name()+"|returns", pos, "fresh nodes only")
+		}
+	}
+	r.floor(rule, "named constructors over the general one", len(named), 8)
+}
